@@ -40,7 +40,14 @@ type stats struct {
 	tagged                           int64
 	nested                           int64
 	byShape                          [nVariants]int64
+	pendingSkipped                   int64
 }
+
+// tags of findings that cases (not units) are known to trigger on the
+// unchanged tree; such cases run in the quick tier only once the tag is listed
+// in known_findings.json (thorough always runs them)
+var pendingCaseTags = map[string]bool{"model-key-update-with-or-call": true}
+var listedTags = map[string]bool{}
 
 type sinks struct {
 	run      *mc.Run
@@ -58,6 +65,9 @@ func refTree(c Case) (tree *cg.Node, defined bool) {
 	var extra []*cg.Node
 	if c.Inline >= 0 {
 		extra = append(extra, us[c.Inline].Tree)
+	}
+	if f := finByName(c.Fin); f >= 0 && fins[f].keyed {
+		extra = append(extra, cg.Atom("id", "=", modelKey))
 	}
 	ts, ok := cg.Terms(c.Chain, us, extra...)
 	if !ok || cg.LeadingOr(c.Chain, us) {
@@ -82,7 +92,7 @@ func inputTags(c Case) []string {
 		u := us[eff[0].Unit]
 		// FindInBatches, Preload and Association add an AND-joined condition of
 		// their own (id > last, foreign key IN ...)
-		andLater := hasInline || f == fBatches || f == fPreloadFunc || f == fAssocFind || f == fAssocCount
+		andLater := hasInline || f == fBatches || f == fPreloadFunc || f == fAssocFind || f == fAssocCount || fins[f].keyed
 		for _, call := range eff[1:] {
 			if call.Kind != cg.KOr {
 				andLater = true
@@ -92,9 +102,18 @@ func inputTags(c Case) []string {
 			// Or(x) first, then an AND-joined condition
 			tags = append(tags, "leading-or-then-and-term")
 		}
-		if len(eff) == 1 && !hasInline && f != fJoinsOn && u.RawTop && (u.Conn == "or" || u.Conn == "mixed") {
+		if len(eff) == 1 && !hasInline && f != fModelKeyDelete && f != fKeyDelete && f != fJoinsOn && u.RawTop && (u.Conn == "or" || u.Conn == "mixed") {
 			// a lone Or("... OR ...") with a raw SQL string
 			tags = append(tags, "lone-leading-or-raw-unit-with-or")
+		}
+	}
+	if (f == fModelKeyUpdate || f == fModelKeyUpdates) && len(eff) > 0 {
+		for _, call := range eff {
+			if call.Kind == cg.KOr {
+				// Model(&rec) key + a chain with an Or call + Update on a soft-delete model
+				tags = append(tags, "model-key-update-with-or-call")
+				break
+			}
 		}
 	}
 	if f == fJoinsOn {
@@ -181,6 +200,13 @@ func check(s *sinks, w *worker, c Case) {
 	f := finByName(c.Fin)
 	us := units[vSoft]
 	tags := inputTags(c)
+	// case families whose finding is not listed yet are left out of the quick tier
+	for _, t := range tags {
+		if pendingCaseTags[t] && !listedTags[t] && s.run.Tier == "quick" {
+			atomic.AddInt64(&s.st.pendingSkipped, 1)
+			return
+		}
+	}
 	atomic.AddInt64(&s.st.cases, 1)
 	atomic.AddInt64(&s.st.byFin[f], 1)
 	if len(tags) > 0 {
@@ -315,7 +341,7 @@ func check(s *sinks, w *worker, c Case) {
 func unitSet(pred func(*cg.Unit) bool) []int {
 	var out []int
 	for _, u := range units[vSoft] {
-		if pred(u) {
+		if pred(u) && !u.Skip {
 			out = append(out, u.Idx)
 		}
 	}
@@ -481,6 +507,8 @@ func main() {
 	units[vSoftPre] = cg.Catalogue(cg.Options{ModelName: "SoftPre", ModelStruct: func(a, b *int, s *string) interface{} { return &SoftPre{A: a, B: b, S: s} }})
 	units[vSoftCol] = cg.Catalogue(cg.Options{ModelName: "SoftCol", ModelStruct: func(a, b *int, s *string) interface{} { return &SoftCol{A: a, B: b, S: s} }})
 	units[vPlainAll] = cg.Catalogue(cg.Options{ModelName: "PlainAll", ModelStruct: func(a, b *int, s *string) interface{} { return &PlainAll{A: a, B: b, S: s} }})
+	pendingSkipped := cg.MarkPending(units[vSoft], "C08", args.Tier)
+	listedTags = cg.ListedTags("C08")
 
 	s := &sinks{run: run, st: &stats{}, nontriv: &mc.Set{}, outcomes: &mc.Set{}, samples: &mc.Samples{N: 8}}
 
@@ -541,6 +569,9 @@ func main() {
 	// part 3: nested relation joins / preloads through soft-delete and plain models
 	ns := exploreNested(run)
 
+	// part 4: destinations that already hold relation values
+	ss := exploreStale(run)
+
 	st := s.st
 	frac := 0.0
 	if st.cases > 0 {
@@ -566,6 +597,9 @@ func main() {
 				run.HarnessError("vacuous: model shape %s executed only %d cases", vName[shape], st.byShape[shape])
 			}
 		}
+		if ss.Cases < 200 || ss.Sensitive*3 < ss.Cases {
+			run.HarnessError("vacuous (stale destinations): %d cases, %d of them with old content that differs from the correct result", ss.Cases, ss.Sensitive)
+		}
 		if msg := nestedVacuity(ns); msg != "" {
 			run.HarnessError("vacuous (nested relations): %s", msg)
 		}
@@ -581,28 +615,32 @@ func main() {
 	run.Assume("PropagateUnscoped=true is exercised on chains of 0-1 calls x all finishers plus the Unscoped+NewDB nested-handle probe (both config values); longer chains run with the default config; histories use create / soft-delete / unscoped-delete / Save (re-create) on 3 keys")
 	run.Assume("Take returns an arbitrary member: compared on found/not-found plus membership in the reference set; programs that are invalid SQL for both the soft-delete model and its twin are skipped (counted in invalid_for_both)")
 	run.Finish(map[string]interface{}{
-		"evaluations":                          st.execs,
-		"distinct_nontrivial":                  s.nontriv.Len(),
-		"rule":                                 fmt.Sprintf("unit catalogue of %d units (verif/condgram); every chain of 0-1 Where/Or/Not calls (leading Or included) over all units x 22 finishers; chains of 2 calls over the class representatives (quick Rep=1, thorough Rep>=1) x 22 finishers, thorough also one call over all units + one over the representatives x Find/Count/Update/Delete; inline conditions; PropagateUnscoped on and the Unscoped+NewDB nested-handle probe; chains of 0-1 calls x 22 finishers on four more shapes of the soft-delete model (pointer field, field promoted from an embedded struct, embedded struct with column prefix, renamed column); chains of 3 calls over 5 shapes (quick) / the class representatives (thorough) x Find/Count/Update/Delete. Plus nested relation paths of depth 2-3 over {soft,plain}^depth from a soft or plain root (single nested Joins entry, step-wise, InnerJoins, ON conditions, conditions on the joined aliases, nested Preload with/without conditions, Joins+Preload) x Find/Count/First, with soft-deleted rows at every level, each compared with the same path over plain twin tables. Each case runs scoped on softs vs plains (live rows only) and Unscoped on softs vs plain_alls (all rows); evaluations = executions. Non-trivial = the scoped and the Unscoped observation of the case differ, i.e. a soft-deleted twin satisfies the condition and a leak would be visible; distinct by (chain, inline, finisher, config)", len(units[vSoft])),
-		"samples":                              s.samples.List(),
-		"exhaustive":                           complete && hs.Complete,
-		"cases":                                st.cases,
-		"generated":                            generated,
-		"not_applicable_skipped":               st.skippedNA,
-		"invalid_for_both":                     st.bothErr,
-		"scoped_differs_from_unscoped":         st.sensitive,
-		"sensitive_fraction_pct":               int(frac * 100),
-		"cases_with_or":                        st.withOr,
-		"cases_with_leading_or":                st.leadingOr,
-		"reference_checked_executions":         st.refChecked,
-		"nested_handle_cases":                  st.nested,
-		"cases_with_input_tag":                 st.tagged,
-		"distinct_outcomes":                    s.outcomes.Len(),
-		"by_finisher":                          byFin,
-		"states":                               hs.States,
-		"transitions":                          hs.Transitions,
-		"traces_validated_against_impl":        hs.Transitions + hs.Steps,
-		"cases_by_model_shape":                 map[string]int64{"SoftPtr": st.byShape[vSoftPtr], "SoftEmb": st.byShape[vSoftEmb], "SoftPre": st.byShape[vSoftPre], "SoftCol": st.byShape[vSoftCol]},
+		"evaluations":                        st.execs,
+		"distinct_nontrivial":                s.nontriv.Len(),
+		"rule":                               fmt.Sprintf("unit catalogue of %d units (verif/condgram); every chain of 0-1 Where/Or/Not calls (leading Or included) over all units x 22 finishers; chains of 2 calls over the class representatives (quick Rep=1, thorough Rep>=1) x 22 finishers, thorough also one call over all units + one over the representatives x Find/Count/Update/Delete; inline conditions; PropagateUnscoped on and the Unscoped+NewDB nested-handle probe; chains of 0-1 calls x 22 finishers on four more shapes of the soft-delete model (pointer field, field promoted from an embedded struct, embedded struct with column prefix, renamed column); chains of 3 calls over 5 shapes (quick) / the class representatives (thorough) x Find/Count/Update/Delete. Plus nested relation paths of depth 2-3 over {soft,plain}^depth from a soft or plain root (single nested Joins entry, step-wise, InnerJoins, ON conditions, conditions on the joined aliases, nested Preload with/without conditions, Joins+Preload) x Find/Count/First, with soft-deleted rows at every level, each compared with the same path over plain twin tables. Plus destinations that already hold relation values (struct / slice primed by an Unscoped load or by a load made before the relation rows were soft-deleted) re-read with Preload/Joins forms of belongs-to, has-one and has-many relations, compared with a read into a fresh destination; plus Delete/Update with the primary key in the Model() value or in the Delete value. Each case runs scoped on softs vs plains (live rows only) and Unscoped on softs vs plain_alls (all rows); evaluations = executions. Non-trivial = the scoped and the Unscoped observation of the case differ, i.e. a soft-deleted twin satisfies the condition and a leak would be visible; distinct by (chain, inline, finisher, config)", len(units[vSoft])),
+		"samples":                            s.samples.List(),
+		"exhaustive":                         complete && hs.Complete,
+		"cases":                              st.cases,
+		"generated":                          generated,
+		"not_applicable_skipped":             st.skippedNA,
+		"invalid_for_both":                   st.bothErr,
+		"scoped_differs_from_unscoped":       st.sensitive,
+		"sensitive_fraction_pct":             int(frac * 100),
+		"cases_with_or":                      st.withOr,
+		"cases_with_leading_or":              st.leadingOr,
+		"reference_checked_executions":       st.refChecked,
+		"nested_handle_cases":                st.nested,
+		"cases_with_input_tag":               st.tagged,
+		"distinct_outcomes":                  s.outcomes.Len(),
+		"by_finisher":                        byFin,
+		"states":                             hs.States,
+		"transitions":                        hs.Transitions,
+		"traces_validated_against_impl":      hs.Transitions + hs.Steps,
+		"pending_cases_skipped_until_listed": st.pendingSkipped,
+		"pending_units_skipped_until_listed": pendingSkipped,
+		"cases_by_model_shape":               map[string]int64{"SoftPtr": st.byShape[vSoftPtr], "SoftEmb": st.byShape[vSoftEmb], "SoftPre": st.byShape[vSoftPre], "SoftCol": st.byShape[vSoftCol]},
+		"stale_destination_cases":            ss.Cases,
+		"stale_destination_cases_where_old_content_differs": ss.Sensitive,
 		"nested_cases":                         ns.Cases,
 		"nested_executions":                    ns.Execs,
 		"nested_invalid_for_both":              ns.InvalidBoth,
@@ -618,7 +656,21 @@ func main() {
 }
 
 func replay(args mc.Args, s *sinks) {
+	pendingCaseTags = map[string]bool{} // a replay always judges the case itself
 	// a replay file holds either a condition case or a history
+	var sprobe struct {
+		Stale *StaleCase `json:"stale"`
+	}
+	if err := mc.LoadReplay(args.Replay, &sprobe); err == nil && sprobe.Stale != nil {
+		os.Setenv("VERIF_KNOWN_FINDINGS", "/nonexistent")
+		run := mc.NewRun("C08", args.Tier, "exploration")
+		replayStale(run, *sprobe.Stale)
+		if run.NumViolations() > 0 {
+			os.Exit(1)
+		}
+		fmt.Println("no violation")
+		return
+	}
 	var nprobe struct {
 		Nested *NCase `json:"nested"`
 	}
